@@ -557,8 +557,11 @@ def report(ctx, vectors, traces, verdicts, source):
 
 
 def repro(isa, hexbytes, kv):
-    """python -m harness.c06repro x64 <hexbytes> rax=.. rbx=.. fl=0x1 [mem=hex]"""
+    """python -m harness.c06repro x64|x86 <hexbytes> [rax=.. rbx=..] [r=<16 hex values, rax..r15, comma separated>]
+    [fl=<rflags & 0xCD5>] [mem=<64 scratch bytes at 0x10002000, hex>]: amoco's result next to the processor's"""
     regs = [0] * 16
+    if "r" in kv:
+        regs = [int(x, 16) for x in kv["r"].split(",")]
     for k_, val in kv.items():
         if k_ in R64:
             regs[R64.index(k_)] = int(val, 0)
